@@ -15,18 +15,12 @@
 (* it is given before the hand-over, the harness spells the names in several ways.       *)
 (* Blocked is the set of names the provider's configuration blocks (exact entries,      *)
 (* ".domain" entries: the domain itself and every name ending in ".domain").             *)
-EXTENDS Integers, Sequences, FiniteSets, TLC
+EXTENDS HostnameOps, TLC
 
-CONSTANTS Hosts,      \* canonical hostnames (strings)
-          Blocked,    \* the blocked ones
-          Deps,       \* deployment ids (strings)
-          Clients,    \* calling goroutines (strings)
+CONSTANTS Clients,    \* calling goroutines (strings)
           Alphabet,   \* the calls a client may make: records [op, d, names]
           MaxOps,     \* calls per client (bounds the model)
           KeepHist    \* BOOLEAN: maintain the ghost hist (J2 exports only)
-
-None == "none"
-ASSUME Blocked \subseteq Hosts /\ None \notin Deps /\ None \notin Hosts
 
 VARIABLES
   held,   \* [Hosts -> Deps \cup {None}]   hs.inUse
@@ -47,29 +41,6 @@ view == <<held, sd, loop, pc, req, res, late, n>>
 NoReq == [op |-> "none", d |-> None, names |-> <<>>]
 NoRes == [r |-> "none", why |-> "", host |-> ""]
 IdleLoop == [k |-> "idle", names |-> <<>>]
-Ok == [r |-> "ok", why |-> "", host |-> ""]
-NotRunningRes == [r |-> "notrunning", why |-> "", host |-> ""]
-
-Range(s) == {s[i] : i \in 1..Len(s)}
-NameSeqs(k) == UNION {[1..j -> Hosts] : j \in 0..k}
-Requests(k) == [op : {"reserve", "can"}, d : Deps, names : NameSeqs(k)]
-                 \cup [op : {"release"}, d : {None}, names : NameSeqs(k)]
-
----------------------------------------------------------------------------------------------
-(* the sequential meaning of a request: doRequest walks the names in order; a name is refused  *)
-(* when it is blocked, or in use by another deployment                                         *)
-
-Bad(h, d, x) == x \in Blocked \/ (h[x] # None /\ h[x] # d)
-BadAt(h, d, names) == {i \in 1..Len(names) : Bad(h, d, names[i])}
-FirstBad(h, d, names) == IF BadAt(h, d, names) = {} THEN 0
-                         ELSE CHOOSE i \in BadAt(h, d, names) : \A j \in BadAt(h, d, names) : i <= j
-Answer(h, d, names) ==
-  LET i == FirstBad(h, d, names) IN
-  IF i = 0 THEN Ok
-  ELSE [r |-> "notallowed", why |-> IF names[i] \in Blocked THEN "blocked" ELSE "inuse", host |-> names[i]]
-Grant(h, d, names) == [x \in Hosts |-> IF x \in Range(names) THEN d ELSE h[x]]
-Freed(h, names) == [x \in Hosts |-> IF x \in Range(names) THEN None ELSE h[x]]
-
 ---------------------------------------------------------------------------------------------
 Init ==
   /\ held = [h \in Hosts |-> None]
